@@ -43,12 +43,22 @@ func (c Call) int(i int) int64 {
 }
 
 // GenBytes is the byte generator shared with the Lean driver.
+// GenBytes is the content generator shared with the Lean driver.  The seed selects the byte
+// distribution: below 2^20 pseudo-random bytes (incompressible), from 2^20 low-entropy text,
+// from 2^21 zeros.
 func GenBytes(n int, seed int64) []byte {
 	out := make([]byte, n)
 	s := seed
 	for i := 0; i < n; i++ {
 		s = (s*1103515245 + 12345) % 2147483648
-		out[i] = byte(s / 65536 % 256)
+		switch {
+		case seed >= 2097152:
+			out[i] = 0
+		case seed >= 1048576:
+			out[i] = byte(97 + s/65536%4)
+		default:
+			out[i] = byte(s / 65536 % 256)
+		}
 	}
 	return out
 }
